@@ -235,6 +235,10 @@ let handle f =
         let q = p_list p_cref in
         let wb = p_workbook () in
         String.concat " " (List.map (fun c -> match lookup wb c with CEmpty -> "e" | _ -> show_value (denote ops wb c)) q)
+    | ["ty"; w] ->
+        (* the typed path: what cell A1 holds after the text is typed *)
+        let c = { c_sheet = Z0; c_row = z_of_int 1; c_col = z_of_int 1 } in
+        show_cell (type_number ops c (text_of_wire w) (store_of [])) c
     | "fin" :: rest ->
         toks := rest;
         let cells = p_list p_cref in
